@@ -62,6 +62,9 @@ def mini(n_isa, n_gs, n_st, hl, icvn='00401', quirk=None):
                     body += ['CLM*A*1***11:B:1*Y', 'REF*A*B**', ' REF*C*D', 'SV1*HC:99213::*1*UN', 'AAA*',
                              'N3*100 MAIN ST ', ' NM1*41*2*ACME *****46*TGJ23 ', '  REF*E*F :G ', 'N3*123 MAIN ST*          ', 'DMG*D8*19700101* ',
                              'REF*G* : ']
+                elif quirk == 'lsle':
+                    # bounded loops: LS / LE are ordinary segments of the set as far as the counts go (balanced, nested, and unbalanced)
+                    body += ['LS*2120', 'NM1*P3*1*A', 'LE*2120', 'LS*1', 'LS*2', 'NM1*P3*1*B', 'LE*2', 'LE*1', 'LX*1', 'LE*9', 'LS*7']
                 elif quirk == 'hl2':
                     body += ['HL*%d*9*22*0' % (hl + 1)]
                 st = '%04d' % (1 if quirk == 'dupst' else s)
@@ -89,7 +92,7 @@ def corpus():
             c['m%d%d%d%d' % m] = mini(*m)
         c['m1113:5010'] = mini(1, 1, 1, 3, '00501')
         c['m1121:5010'] = mini(1, 1, 2, 1, '00501')
-        for q in ('shapes', 'hl2', 'dupst', 'se2', 'noiea'):
+        for q in ('shapes', 'hl2', 'dupst', 'se2', 'noiea', 'lsle'):
             c['m1122:' + q] = mini(1, 1, 2, 2, quirk=q)
         # an interchange without any functional group (a TA1-only acknowledgement, IEA*0) next to a grouped one
         lone = ref.isa('00401', ctl='000000007') + 'TA1*000000001*040608*1333*A*000~' + 'IEA*0*000000007~'
